@@ -23,6 +23,7 @@ This file closes that gap where it can be closed by proof, and records where the
 import PcProofs.SafetyP2Region
 import PcProofs.P2LoopEx
 import PcProofs.SafetyLB
+import PcProofs.SafetySigmaTop
 
 namespace Pc.C16Safety
 open Pc.P2L Pc.LB Pc.Safety Finset
@@ -125,6 +126,72 @@ theorem B_128_no_overflow {it : Iter} (hit : IterSpec it) {pi : ℕ → ℕ} {x 
   omega
 
 
+
+/-! ## Sigma (Sigma.cpp): closed forms, prime loop, whole function (WP safety2) -/
+
+/-- **`Sigma0 … Sigma3` never leave `T`** (Sigma.cpp:30-53), for EVERY `x ≤ tMax` (so: every `x < 2^63` with `T = int64_t`, every
+    `x < 2^127` with `T = int128_t`) and every `y` with `x^(1/3) ≤ y ≤ √x`, `√(x/y) ≤ x^(1/3)` (Gourdon's parameter domain): every
+    intermediate value of the four closed forms (differences, products, the `/ 2`, `/ 6`, partial sums — in C++ evaluation order)
+    lies in `T`, with `a = π(y)`, `b = π(x^(1/3))`, `c = π(√(x/y))`, `d = π(x⋆)`, `pi_sqrtx = π(√x)`. -/
+theorem Sigma_closed_forms_no_overflow {x y tMax : ℕ} (hy1 : 1 ≤ y) (hy2 : y * y ≤ x) (hc3y : irootN 3 x ≤ y)
+    (hsc : Nat.sqrt (x / y) ≤ irootN 3 x) (hxT : x ≤ tMax) (hT : 2 ≤ tMax) :
+    sigma0C tMax (π (Nat.sqrt x)) (π y) = .ok (sigma0P (π (Nat.sqrt x)) (π y)) ∧
+    sigma1C tMax (π y) (π (irootN 3 x)) = .ok (sigma1 (π y) (π (irootN 3 x))) ∧
+    sigma2C tMax (π y) (π (irootN 3 x)) (π (Nat.sqrt (x / y))) (π (xStar x y))
+      = .ok (sigma2 (π y) (π (irootN 3 x)) (π (Nat.sqrt (x / y))) (π (xStar x y))) ∧
+    sigma3C tMax (π (irootN 3 x)) (π (xStar x y)) = .ok (sigma3 (π (irootN 3 x)) (π (xStar x y))) := by
+  have H := sigma_closed_hyps hy1 hy2 hc3y hsc
+  exact ⟨sigma0C_ok _ _ _ H.hap (le_trans H.hps hxT), sigma1C_ok _ _ _ H.hba (le_trans H.haa hxT),
+    sigma2C_ok _ _ _ _ _ hT H.hdc H.hcb (le_trans H.hab hxT) (le_trans H.hac hxT) (le_trans H.hcc hxT) (le_trans H.hbx hxT),
+    sigma3C_ok _ _ _ (by omega) (le_trans H.hdc H.hcb) (le_trans H.hb3 hxT)⟩
+
+/-- **the prime loop of `Sigma456`, width-checked** (Sigma.cpp:75-90): `sigma4`, `sigma5`, `sigma6` are sums of non-negative terms;
+    when their FINAL values fit `T`, no prefix and no product `pi_sqrt_xp * (T) pi_sqrt_xp` leaves `T`, and the checked loop
+    returns what the unchecked loop (`sigma456Step`) returns -/
+theorem Sigma456_loop_no_overflow {t : NT} {tMax : ℕ} {w : ITy} {x y xs x13 maxX : ℕ} (H : SigmaLoopOK w x y xs x13 maxX)
+    (l : List ℕ) (hl : ∀ q ∈ l, xs < q ∧ q ≤ x13)
+    (b4 : (l.map (sg4 t x y (Nat.sqrt (x / y)))).sum ≤ tMax) (b5 : (l.map (sg5 t x (Nat.sqrt (x / y)))).sum ≤ tMax)
+    (b6 : (l.map (sg6 t x)).sum ≤ tMax) :
+    l.foldlM (sigma456StepC tMax t w x y maxX (Nat.sqrt (x / y))) ⟨0, 0, 0⟩
+      = liftL (l.foldlM (sigma456Step t w x y maxX (Nat.sqrt (x / y))) ⟨0, 0, 0⟩) := by
+  rw [sigma456_fold H l _ hl, sigma456C_fold H l ⟨0, 0, 0⟩ hl (le_refl _) (le_refl _) (le_refl _)
+    (by simpa using b4) (by simpa using b5) (by simpa using b6)]
+  rfl
+
+/-- the final values: `sigma4 *= a` and `sigma6` are `≤ 6x` (ordered prime triples), `sigma5 ≤ x^(1/3) · y ≤ x` -/
+theorem Sigma456_final_bounds {t : NT} {x y : ℕ} (D : SigmaDom t x y) :
+    (t.piOf y : ℤ) * ((t.primesIn (xStar x y) (irootN 3 x)).map (sg4 t x y (Nat.sqrt (x / y)))).sum ≤ 6 * (x : ℤ) ∧
+    ((t.primesIn (xStar x y) (irootN 3 x)).map (sg5 t x (Nat.sqrt (x / y)))).sum ≤ (irootN 3 x : ℤ) * y ∧
+    ((t.primesIn (xStar x y) (irootN 3 x)).map (sg6 t x)).sum ≤ 6 * (x : ℤ) :=
+  ⟨sigma4_final_le D, sigma5_final_le D, sigma6_final_le D⟩
+
+/-- **`Sigma(x, y)` stores no value outside `T`** — PARTIAL in the constant: proved for `11 x + 4 ≤ tMax`.  Every intermediate of
+    `Sigma0 … Sigma3`, every prefix of `sigma4/5/6`, every product, `sigma4 *= a`, `-sigma6`, and the six final additions of
+    Sigma.cpp:92-95 / 127-131 lie in `T`; the value is `Σ0 + … + Σ6`.  Missing for full strength with `T = int64_t`:
+    `x ∈ ((2^63 - 5) / 11, 2^63)` (≈ `[8.4·10^17, 9.2·10^18]`) — the bounds `Σ4, Σ6 ≤ 6x` would have to be replaced by
+    Mertens-type bounds.  For `T = int128_t` the entry point accepts `x ≤ 10^31` only: `Sigma_128_no_overflow`. -/
+theorem Sigma_no_overflow_partial {t : NT} {x y : ℕ} (D : SigmaDom t x y) {w : ITy} (hy2 : y * y ≤ x)
+    (hsc : Nat.sqrt (x / y) ≤ irootN 3 x) (hw : y * y ≤ w.maxVal) (h63 : t.bound ≤ ITy.i64.maxVal)
+    {tMax : ℕ} (hM : 11 * x + 4 ≤ tMax) :
+    sigmaC tMax t w x y = .ok (Spec.Sigma0 x (π y) + Spec.Sigma1 (π y) (π (irootN 3 x))
+      + Spec.Sigma2 (π y) (π (irootN 3 x)) (π (Nat.sqrt (x / y))) (π (xStar x y))
+      + Spec.Sigma3 (π (irootN 3 x)) (π (xStar x y)) + Spec.Sigma4 x y (xStar x y)
+      + Spec.Sigma5 x y (irootN 3 x) + Spec.Sigma6 x (xStar x y) (irootN 3 x)) := by
+  rw [sigmaC_eq_partial D hy2 hsc hw h63 hM, sigma_eq D.hv D.hy1 D.hc3y hsc D.hyb D.hs D.hm4 hw h63]
+  rfl
+
+/-- **`Sigma(int128_t x, y)` never overflows**: EVERY `x ≤ 10^31` (the limit of the 128-bit entry points), every `y` of the domain -/
+theorem Sigma_128_no_overflow {t : NT} {x y : ℕ} (D : SigmaDom t x y) (hx : x ≤ 10 ^ 31) (hy2 : y * y ≤ x)
+    (hsc : Nat.sqrt (x / y) ≤ irootN 3 x) (h63 : t.bound ≤ ITy.i64.maxVal) :
+    sigmaC (2 ^ 127 - 1) t .i128 x y = liftL (sigma t .i128 x y) :=
+  sigmaC_eq_partial D hy2 hsc (le_trans hy2 (le_trans hx (by decide))) h63 (by omega)
+
+/-- `Sigma(int64_t x, y)`: PARTIAL, `x ≤ 838488366986797800 = (2^63 - 5) / 11` -/
+theorem Sigma_64_no_overflow_partial {t : NT} {x y : ℕ} (D : SigmaDom t x y) (hx : x ≤ 838488366986797800) (hy2 : y * y ≤ x)
+    (hsc : Nat.sqrt (x / y) ≤ irootN 3 x) (h63 : t.bound ≤ ITy.i64.maxVal) :
+    sigmaC (2 ^ 63 - 1) t .i64 x y = liftL (sigma t .i64 x y) :=
+  sigmaC_eq_partial D hy2 hsc (le_trans hy2 (le_trans hx (by decide))) h63 (by omega)
+
 /-! ## LoadBalancerS2: whole histories -/
 
 /-- **The whole-history int64 safety of `LoadBalancerS2` is FALSE inside the range the public API guarantees**
@@ -211,6 +278,24 @@ example : p2OpenMPCPreFix (2 ^ 127 - 1) genConsts refIter (fun _ => 4118054813) 
 example : S2.HandsBelow S2.wInit := S2.handsBelow_init _ _ _ _ _
 example : S2.handOk (S2.run S2.wCfg S2.wInit (S2.wPre.take 10)) (S2.wPre.getD 10 S2.wLast) = true := by decide +kernel
 
+
+/-- `Sigma` on `x = 100000`, `y = 60` (the hypotheses of `SigmaDom` and of the whole-function theorem are satisfiable) -/
+example : sigmaC (2 ^ 63 - 1) (NT.build 2000) .i64 100000 60 = liftL (sigma (NT.build 2000) .i64 100000 60) :=
+  Sigma_64_no_overflow_partial
+    ⟨NT.build_valid 2000, by norm_num,
+      by rw [irootN_eq_of (r := 46) (by norm_num) (by norm_num) (by norm_num)]; norm_num,
+      by show 60 ≤ 2000; norm_num, by show Nat.sqrt 100000 ≤ 2000; exact (Nat.sqrt_lt.2 (by norm_num)).le,
+      by show 100000 / (xStar 100000 60 * 60) ≤ 2000
+         exact le_trans (Nat.div_le_div_left (Nat.le_mul_of_pos_left 60 (one_le_xStar _ _)) (by norm_num)) (by norm_num)⟩
+    (by norm_num) (by norm_num)
+    (by rw [irootN_eq_of (r := 46) (by norm_num) (by norm_num) (by norm_num)]
+        exact Nat.lt_succ_iff.1 (Nat.sqrt_lt.2 (by norm_num)))
+    (by show 2000 ≤ ITy.i64.maxVal; decide)
+
+/-- the checked closed forms are not vacuous: in a 7-bit `T` (`tMax = 63`) `Sigma3(10, 0)` overflows (`10 * 9 * 19 = 1710`) -/
+example : sigma3C 63 10 0 = .error .ovfClosed := by decide
+example : sigma3C 2000 10 0 = .ok 275 := by decide
+
 end Pc.C16Safety
 
 #print axioms Pc.C16Safety.pi_phi_bounds
@@ -227,3 +312,9 @@ end Pc.C16Safety
 #print axioms Pc.C16Safety.s2_whole_history_safety_refuted
 #print axioms Pc.C16Safety.s2_hands_below
 #print axioms Pc.C16Safety.s2_step_no_overflow_of_hand_partial
+#print axioms Pc.C16Safety.Sigma_closed_forms_no_overflow
+#print axioms Pc.C16Safety.Sigma456_loop_no_overflow
+#print axioms Pc.C16Safety.Sigma456_final_bounds
+#print axioms Pc.C16Safety.Sigma_no_overflow_partial
+#print axioms Pc.C16Safety.Sigma_128_no_overflow
+#print axioms Pc.C16Safety.Sigma_64_no_overflow_partial
